@@ -287,11 +287,15 @@ class RelCompiledInterpreted(T2Case):
     kind = "C03rel"
     functions = ["dissect/cstruct/types/structure.py:StructureMetaType._read", "<generated>._read (compiler.py:_ReadSourceGenerator)"]
 
+    any_start = False  # True: the start position is arbitrary, also for aligned definitions
+
     def body(self, ctx):
         if not self.load_or_reject(ctx):
             return
         Ti, Tc = self.cls(False), self.cls(True)
-        D, p = self.new_input(ctx)
+        if self.any_start and (Ti.size is None or not self.prog.align):
+            return  # the arbitrary-start variant is run for fixed-size aligned definitions (offsets are relative to the start)
+        D, p = self.new_input(ctx, aligned_start=not self.any_start)
         it = self.interp(ctx)
         s1 = SymStream(ctx, D, p, name="si")
         o1 = outcome(it, Ti._read, [s1])
@@ -353,6 +357,18 @@ def native_rel(prog, inputs):
 
 def make_rel(prog_json):
     return RelCompiledInterpreted(prog_json)
+
+
+class RelAnyStart(RelCompiledInterpreted):
+    """C03 at an arbitrary (also unaligned) start position, for fixed-size aligned definitions: both readers place members
+    relative to the start of the structure."""
+
+    kind = "C03rel@any"
+    any_start = True
+
+
+def make_rel_any(prog_json):
+    return RelAnyStart(prog_json)
 
 
 # ----------------------------------------------------------------------------------------------------
